@@ -418,6 +418,14 @@ func newHist(cs *caseSpec) *hist {
 	return &hist{cs: cs, recs: map[string]*rec{}, lastSeen: map[string]int{}, latest: map[string]*rec{}}
 }
 
+// tname names the code under test in signatures (the frozen-clock rounds run against a plugin).
+func (h *hist) tname() string {
+	if h.cs.Target != "" {
+		return h.cs.Target
+	}
+	return h.cs.Kind
+}
+
 func (h *hist) isThrottle() bool { return h.cs.Kind == "throttle" || h.cs.Target == "throttle" }
 
 // addStore registers an offered store BEFORE the real call (a concurrent reader may see it at once).
@@ -470,7 +478,7 @@ func (h *hist) judge(k keySpec, tNs int64, ht *hit, sequential bool, retTick int
 	}
 	if r.OKey != ok {
 		d := keyDiff(h.cs, keyOf(h.cs, r.Key), k)
-		out = append(out, viol{"C12/replay-wrong-key/" + h.cs.Kind + "-" + d,
+		out = append(out, viol{"C12/replay-wrong-key/" + h.tname() + "-" + d,
 			fmt.Sprintf("lookup for key %s was answered with body %q stored under key %s", ok, id, r.OKey)})
 	}
 	if retTick != 0 && r.CallTick > retTick {
@@ -508,7 +516,7 @@ func (h *hist) judge(k keySpec, tNs int64, ht *hit, sequential bool, retTick int
 			}
 		} else if r.OKey == ok {
 			if h.lastSeen[ok] > r.Idx {
-				out = append(out, viol{"C12/replay-superseded/" + h.cs.Kind,
+				out = append(out, viol{"C12/replay-superseded/" + h.tname(),
 					fmt.Sprintf("store #%d (%q) replayed after the later store #%d of the same key had already been replayed", r.Idx, id, h.lastSeen[ok])})
 			} else {
 				h.lastSeen[ok] = r.Idx
@@ -1251,8 +1259,13 @@ func genSize(r *sim.Rand, idx int) caseSpec {
 		if pad < 0 {
 			pad = 0
 		}
-		tl.ops = append(tl.ops, op{K: "store", Key: key, ID: tl.id(), Pad: pad, TTLk: ttlk})
-		key++
+		k := key
+		if key > 0 && r.Chance(1, 4) {
+			k = r.Intn(key) // store again under a key used in an earlier epoch (its sleeper may still be pending)
+		} else {
+			key++
+		}
+		tl.ops = append(tl.ops, op{K: "store", Key: k, ID: tl.id(), Pad: pad, TTLk: ttlk})
 	}
 	epochs := r.Range(2, 6)
 	for e := 0; e < epochs; e++ {
@@ -1289,8 +1302,16 @@ func genSize(r *sim.Rand, idx int) caseSpec {
 			tl.ops = append(tl.ops, op{K: "sweep"})
 		}
 		tl.t += ttlk*ttlUnitNs + 1 + int64(r.Intn(5))
-		tl.ops = append(tl.ops, op{K: "at", AtNs: tl.t, Prompt: true})
+		lazy := r.Chance(1, 3)
+		tl.ops = append(tl.ops, op{K: "at", AtNs: tl.t, Prompt: !lazy})
 		tl.ops = append(tl.ops, op{K: "sweep"})
+		if lazy { // some of the expired entries' sleepers run late, in a chosen order, between later stores
+			for j := r.Intn(4); j > 0; j-- {
+				store(r.Intn(3000))
+				tl.ops = append(tl.ops, op{K: "fire", Sel: r.Intn(64), DueOnly: true})
+			}
+			tl.ops = append(tl.ops, op{K: "sweep"})
+		}
 	}
 	cs.Ops = tl.ops
 	return cs
